@@ -4,7 +4,7 @@ use crate::prelude::{
 };
 use crate::store::track_distance::TrackDistanceOkIterator;
 use crate::store::TrackStore;
-use crate::track::Track;
+use crate::track::{Track, TrackStatus};
 use crate::trackers::batch::{PredictionBatchRequest, PredictionBatchResult, SceneTracks};
 use crate::trackers::epoch_db::EpochDb;
 use crate::trackers::sort::metric::SortMetric;
@@ -305,6 +305,8 @@ impl BatchSort {
         store
             .lookup(SortLookup::IdleLookup(scene_id))
             .iter()
+            // an expired track that the periodic collection has not moved yet is not idle
+            .filter(|(_track_id, status)| !matches!(status, Ok(TrackStatus::Wasted)))
             .map(|(track_id, _status)| {
                 let shard = store.get_store(*track_id as usize);
                 let track = shard.get(track_id).unwrap();
